@@ -24,7 +24,7 @@ N = "native"
 V = "verus"
 
 
-def kani(name, props, clause, fn, tier="quick", timeout=120, bounded=None, pkg="bemodel", timeout_thorough=None):
+def kani(name, props, clause, fn, tier="quick", timeout=600, bounded=None, pkg="bemodel", timeout_thorough=None):
     d = {"backend": K, "name": name, "props": props, "clause": clause, "fn": fn, "tier": tier, "timeout": timeout,
          "pkg": pkg}
     if bounded:
@@ -85,6 +85,7 @@ OBLIGATIONS = [
     # ---- C07 ------------------------------------------------------------------------------------------
     kani("c07_wincons_u", ["C07"], "C07.u.none", "WinCons::u_value", timeout=600, bounded="ConsDb with 1 glass + 1 frame; all scalars and both links symbolic"),
     kani("c07_wincons_g", ["C07"], "C07.g", "WinCons::g_glwi / g_glshwi", timeout=600, bounded="ConsDb with 1 glass + 1 frame; all scalars and the glass link symbolic"),
+    kani("c08_k_no_elements", ["C08"], "C08.empty", "KData::from(&EnergyProps)", bounded="element maps empty; every global scalar symbolic"),
     # ---- C09 ------------------------------------------------------------------------------------------
     kani("c09_n50_no_walls", ["C09"], "C09.corner", "N50Data::from(&EnergyProps)", bounded="element maps empty; every global scalar symbolic"),
     # ---- C13 ------------------------------------------------------------------------------------------
@@ -127,6 +128,7 @@ OBLIGATIONS = [
     native("n_c13_setback", ["C13", "C12"], "C13.setback", "Window::shades_for_setback", EN + "n_c13_setback"),
     native("n_c13_aabb_slab", ["C13"], "C13.aabb.slab", "AABB::intersects", EN + "n_c13_aabb_slab"),
     native("n_c12_sunlit", ["C12", "C14"], "C12.sunlit", "Model::sunlit_fraction / collect_occluders / ray_origins_for_window", EN + "n_c12_sunlit"),
+    native("n_c12_reveals", ["C12"], "C12.reveals", "Model::sunlit_fraction (own / foreign reveal filter) / windows_setback_shades", EN + "n_c12_reveals"),
     native("n_c12_fshobst", ["C12"], "C12.fshobst", "Model::compute_fshobst", EN + "n_c12_fshobst"),
     native("n_c17_week_expand", ["C17"], "C17.week.expand", "ScheduleWeek::to_day_sch", RN + "n_c17_week_expand"),
     native("n_c17_year_expand", ["C17"], "C17.year.expand", "SchedulesDb::get_year_as_day_sch / year_values", RN + "n_c17_year_expand"),
@@ -142,7 +144,7 @@ OBLIGATIONS = [
     native("n_c06_uint_value", ["C06"], "C06.uint", "Wall::u_value_interior_cond_uncond", TR + "n_c06_uint_value"),
     native("n_c06_uext_mono", ["C06"], "C06.uext.mono", "Wall::u_value_exterior", TR + "n_c06_uext_mono"),
     native("n_c06_dispatch", ["C06"], "C06.dispatch", "Wall::u_value(&Model) / Space::ua_of_external_and_ground_surfaces / Model::global_ventilation_rate", TR + "n_c06_dispatch"),
-    native("n_c06_ground", ["C06"], "C06.ground", "Wall::u_value (GROUND) / u_value_gnd_slab / u_value_gnd_wall / Space::slab_char_dim / slab_d_t / slab_psi_gnd_ext", TR + "n_c06_ground"),
+    native("n_c06_ground", ["C06", "C14"], "C06.ground", "Wall::u_value (GROUND) / u_value_gnd_slab / u_value_gnd_wall / Space::slab_char_dim / slab_d_t / slab_psi_gnd_ext", TR + "n_c06_ground"),
     native("n_c07_wincons_value", ["C07"], "C07.u.value", "WinCons::u_value / g_glwi / g_glshwi", TR + "n_c07_wincons_value"),
     native("n_c07_defaults", ["C07"], "C07.defaults", "EnergyProps::from(&Model) (WinConsProps) / KData::from / QSolJulData::from", TR + "n_c07_defaults"),
     native("n_c20_sun_position", ["C20"], "C20.sunpos", "climate::solar::altitude_sol_from_data / azimuth_sol_from_data / sun_position", "verif_climate::n::n_c20_sun_position", pkg="climate"),
